@@ -47,8 +47,9 @@ class Hist(Scenario):
         if not os.path.isabs(common):
             common = os.path.normpath(os.path.join(repo or self.w.repo, common))
         res = {}
-        for base in sorted({gd, common}):
-            wl = os.path.join(base, "ai", "working_logs")
+        import glob as _glob
+        for wl in sorted({os.path.join(gd, "ai", "working_logs"), os.path.join(common, "ai", "working_logs")} |
+                         set(_glob.glob(os.path.join(common, "ai", "worktrees", "*", "working_logs")))):
             if not os.path.isdir(wl):
                 continue
             for d in sorted(os.listdir(wl)):
@@ -93,8 +94,9 @@ class Hist(Scenario):
         if not os.path.isabs(common):
             common = os.path.normpath(os.path.join(repo or self.w.repo, common))
         res = {}
-        for base in sorted({gd, common}):
-            wl = os.path.join(base, "ai", "working_logs")
+        import glob as _glob
+        for wl in sorted({os.path.join(gd, "ai", "working_logs"), os.path.join(common, "ai", "working_logs")} |
+                         set(_glob.glob(os.path.join(common, "ai", "worktrees", "*", "working_logs")))):
             if not os.path.isdir(wl):
                 continue
             for d in sorted(os.listdir(wl)):
